@@ -113,6 +113,9 @@ RUNTIME_FAULTS = [
     ("bad-index", "[ 1 ] [ 5 ]"),
     ("builtin-arg", "length ( 1 )"),
     ("non-boolean-if", "if 1 then 2"),
+    # a name that was referenced (validly) earlier on another line
+    ("out-of-scope-name", "pz_q"),
+    ("second-use-fails", "seen_q ( 1 )"),
 ]
 SYNTAX_FAULTS = [
     ("def-number", "def 1 = 2"),
@@ -177,6 +180,9 @@ def build_program(ch, fault_src, place, syntax):
     """Returns (text, planted_line, call_line or None)."""
     lay = Layout(ch, crlf=ch.bool(0.25))
     lay.toks("def v0 = 7 ;")
+    # earlier, valid references to names that the planted fault uses again
+    lay.toks("def fz_q ( pz_q ) pz_q + 1 ; def seen_q = 3 ; "
+             "def uz_q = seen_q + fz_q ( 2 ) ;")
     for k in range(ch.int(0, 3)):
         filler(lay, k)
     call_line = None
